@@ -1128,6 +1128,28 @@ impl<'a> Iso<'a> {
                 }
             }
         }
+        // globals first bind where the preimage is unique (a global whose
+        // initialiser reads another global pins that one down as well), so
+        // that first fit among identical twins cannot contradict a binding
+        // that is forced elsewhere
+        loop {
+            let mut progress = false;
+            for y in 0..b.n_globals() {
+                if self.globals.rev.contains_key(&y) {
+                    continue;
+                }
+                let cands: Vec<u32> = (0..a.n_globals())
+                    .filter(|x| !self.globals.fwd.contains_key(x) && self.try_pair(|s| s.bind_global(*x, y, Area::Module, "gc leftover global")))
+                    .collect();
+                if cands.len() == 1 {
+                    self.bind_global(cands[0], y, Area::Module, "gc leftover global (unique preimage)")?;
+                    progress = true;
+                }
+            }
+            if !progress {
+                break;
+            }
+        }
         for y in 0..b.n_globals() {
             if !self.globals.rev.contains_key(&y) {
                 let cands: Vec<u32> = (0..a.n_globals())
